@@ -16,13 +16,16 @@ CONSTANTS MaxOps,     \* operations per history
           MaxErr,     \* at most this many error fields
           GScales,    \* initial scales (NoneR = unknown, zero, ...)
           Targets,    \* scales to rescale to
-          Patterns    \* which column contents
+          Patterns,   \* which column contents
+          Share       \* TRUE: two columns may be given as ONE list object (symmetric errors ...), and a second graph
+                      \* (twin) is built from the same column objects before anything is rescaled
 
-VARIABLES g,    \* [cols, dim, errs, scale]
+VARIABLES g,    \* [cols, dim, errs, scale, rep]   rep[k] = first column given as the same list object as column k
           g0,   \* ghost: the graph at the start
+          twin, \* the columns of a second graph made from the same column objects (graphs are values: never changes)
           n, h
-vars == <<g, g0, n, h>>
-view == <<g, n>>
+vars == <<g, g0, twin, n, h>>
+view == <<g, twin, n>>
 
 ErrFields(dim) == {[c |-> c, t |-> t] : c \in 1..dim, t \in Tails}
 \* every ordered selection of distinct error fields ("in every valid naming")
@@ -35,12 +38,19 @@ ScalesAll == {NoneR, <<0, 1>>, <<1, 1>>, <<2, 1>>, <<1, 2>>, <<-1, 1>>}
 ScalesSmall == {NoneR, <<0, 1>>, <<2, 1>>, <<-1, 2>>}
 TargetsAll == {<<1, 1>>, <<2, 1>>, <<3, 1>>, <<1, 2>>, <<-1, 1>>}
 TargetsSeq == {<<2, 1>>, <<1, 2>>}
+ScalesShare == {<<2, 1>>, <<-1, 2>>}
+TargetsShare == {<<1, 1>>, <<3, 1>>}
 
-Init == /\ \E dim \in 1..3, p \in Patterns, sc \in GScales : \E errs \in ErrSeqs(dim) :
-             g = [cols |-> Cols(p, dim + Len(errs)), dim |-> dim, errs |-> errs, scale |-> sc]
-        /\ g0 = g /\ n = 0 /\ h = <<>>
+\* which columns are one object: all different, or exactly one pair (i < j) given as the same list
+Ident(m) == [k \in 1..m |-> k]
+Reps(m) == IF Share THEN {r \in {[Ident(m) EXCEPT ![j] = i] : i \in 1..m, j \in 1..m} : \A k \in 1..m : r[k] <= k}
+           ELSE {Ident(m)}
+Init == /\ \E dim \in 1..3, p \in Patterns, sc \in GScales : \E errs \in ErrSeqs(dim) : \E rep \in Reps(dim + Len(errs)) :
+             LET base == Cols(p, dim + Len(errs)) IN
+             g = [cols |-> [k \in 1..(dim + Len(errs)) |-> base[rep[k]]], dim |-> dim, errs |-> errs, scale |-> sc, rep |-> rep]
+        /\ g0 = g /\ twin = g.cols /\ n = 0 /\ h = <<>>
 
-Op == n < MaxOps /\ n' = n + 1 /\ g0' = g0
+Op == n < MaxOps /\ n' = n + 1 /\ g0' = g0 /\ twin' = twin
 Log(op, s, ok, exc, val) == h' = Append(h, [op |-> op, s |-> s, ok |-> ok, exc |-> exc, val |-> val, g |-> g'])
 \* graph.scale()
 GetScale == Op /\ g' = g /\ Log("getscale", NoneR, TRUE, "", g.scale)
@@ -80,6 +90,10 @@ GetScalePure == [][IsOp("getscale") => g' = g /\ L.val = g.scale]_vars
 \* rescaling back restores the graph (s / old * old / s = 1)
 RoundTrip == [][(IsOp("scale") /\ L.ok /\ L.exc = "" /\ Len(h) > 0 /\ h[Len(h)].op = "scale" /\ h[Len(h)].ok /\ h[Len(h)].exc = "" /\ Len(h) = 1
                  /\ L.s = g0.scale) => g' = g0]_vars
+
+\* a graph owns its numbers: whatever is done to it, another graph made from the same lists keeps its columns
+\* (and a column given twice is rescaled once per column, which ScaleExact states column by column)
+TwinUntouched == [][twin' = twin /\ twin = g0.cols]_vars
 
 Emitted == (n = MaxOps) => PrintT(ToJson([start |-> g0, ops |-> h]))
 =============================================================================
